@@ -575,3 +575,27 @@ Proof. exact ostep_nft_of_ok. Qed.
 
 Print Assumptions C04_oe_metadata_mode_does_not_touch_gates.
 Print Assumptions C04_oe_metadata_mode_same_outcome.
+
+(* =====================================================================================
+   Migrations inside histories.  `minter_migrate` / `o_minter_migrate` (model/MinterMigrate.v)
+   are the minters' `migrate` entry points as functions on the sale-world state; they are
+   not handler operations, so `step` / `ostep` and the theorems above are untouched.  The
+   sale-world correspondence runs migrations inside its histories (SaleCorr.IMigrate /
+   SaleOeCorr.OIMigrate), from stored versions around 3.9.0 and the current version, by the
+   wasm admin and by strangers.
+   ===================================================================================== *)
+From LP Require Import MinterMigrate MinterMigrateProofs.
+
+(* an accepted migration leaves the schedule and the entitlement configuration as they were *)
+Theorem C04_migrate_keeps_schedule_and_whitelist : forall vr now name_ok stored admin s s',
+  minter_migrate vr now name_ok stored admin s = Ok s' ->
+  s_start s' = s_start s /\ s_whitelist s' = s_whitelist s /\ s_pal s' = s_pal s /\ s_admin s' = s_admin s.
+Proof. exact migrate_schedule. Qed.
+
+(* open edition: nothing at all changes (start, end time, whitelist, cap included) *)
+Theorem C04_oe_migrate_changes_nothing : forall vr now name_ok stored admin s s',
+  o_minter_migrate vr now name_ok stored admin s = Ok s' -> s' = s.
+Proof. exact o_migrate_id. Qed.
+
+Print Assumptions C04_migrate_keeps_schedule_and_whitelist.
+Print Assumptions C04_oe_migrate_changes_nothing.
